@@ -181,7 +181,7 @@ def run(F, R, tier):
     R.check(one, rule, CMP, "one-byte pattern -> MemchrSearcher::new(that byte)", where=h["span"])
     he = E.hirs(r"^<searcher::EmptySearcher as ast::index_expr::Compare<U>>::compare$")
     if len(he) == 1:
-        R.check(is_lit(tail(he[0]["body"]), True), rule, norm(he[0]["path"]), "the empty pattern always occurs (constant true)", where=he[0]["span"])
+        R.check(is_lit(fn_result(he[0]), True), rule, norm(he[0]["path"]), "the empty pattern always occurs (constant true)", where=he[0]["span"])
     else:
         R.cannot(rule, "EmptySearcher::compare", "anchor not found")
     mm = [c for c in exprs(body, "Call", into_closures=False) if norm(c.get("callee", "")) == "searcher::MemmemSearcher::new"]
@@ -192,7 +192,7 @@ def run(F, R, tier):
         R.check(ok, rule, "searcher::MemmemSearcher::new", "the finder is built for the given needle", where=hm["span"])
     hc = E.hirs(r"^<searcher::MemmemSearcher as ast::index_expr::Compare<U>>::compare$")
     if len(hc) == 1:
-        t = tail(hc[0]["body"])
+        t = fn_result(hc[0])
         R.check(t.get("k") == "MethodCall" and t["m"] == "is_some" and strip(t["recv"]).get("m") == "find", rule, norm(hc[0]["path"]),
                 "fallback answers find(..).is_some()", where=hc[0]["span"])
     # the searcher comparators are pure delegations: one call on the value's bytes, no shortcut of their own
